@@ -352,10 +352,12 @@ void mon_quota_and_ids(const Run& run, const Ix& ix, Verdicts& v, vu::Result& re
     for (auto& o : h.ops) if (o.completions) tl.push_back({o.seq_done, 2, o.id});
     for (auto& e : h.ev) if (e.kind == Ev::idle) tl.push_back({e.seq, 3, 0});
     for (auto& w : h.writes) { tl.push_back({w.seq_begin, 4, w.id}); if (w.done) tl.push_back({w.seq_end, 5, w.id}); }
+    for (auto& c : h.conns) if (c.connack_sent && c.connack_rc == 0 && !c.session_present) tl.push_back({c.seq_begin, 6, c.id});
     std::sort(tl.begin(), tl.end(), [](const It& a, const It& b) { return a.seq < b.seq; });
     std::map<int, std::set<uint16_t>> open_on_conn;     // conn -> pids counted against the quota
     std::map<uint16_t, int> id_holder;                  // pid -> op holding it (client-initiated exchanges)
     std::multimap<int, uint16_t> ids_of_op;
+    std::map<uint16_t, int> wire_open;                  // pid -> op whose exchange has not seen its final acknowledgement on the wire
     std::set<int64_t> transmitted_on;                       // (conn<<20 | op) pairs
     int writes_pending = 0;
     uint64_t final_seq = UINT64_MAX;
@@ -375,6 +377,16 @@ void mon_quota_and_ids(const Run& run, const Ix& ix, Verdicts& v, vu::Result& re
                 if (p.pid == 0) v.add("C08", "C08:packet-id-zero", std::string(ref::type_name(p.type)) + " with packet identifier 0 on the wire");
                 auto it = id_holder.find(p.pid);
                 if (op >= 0) {
+                    // "reusable only after its exchange completed": the previous holder reported success although the final
+                    // acknowledgement of its exchange (PUBACK / PUBCOMP / failing PUBREC / SUBACK / UNSUBACK) never arrived
+                    auto wo = wire_open.find(p.pid);
+                    if (wo != wire_open.end() && wo->second != op) {
+                        auto& prev = h.ops[wo->second];
+                        if (prev.completions && !prev.ec && prev.seq_done < k.seq)
+                            v.add("C08", "C08:id-reused-before-exchange-completed", "packet identifier " + std::to_string(p.pid) + " reused by " + op_str(h.ops[op]) + " although the exchange of " + op_str(prev) + " had not seen its final acknowledgement");
+                        wire_open.erase(wo);
+                    }
+                    wire_open[p.pid] = op;
                     if (it != id_holder.end() && it->second != op) {
                         v.add("C08", "C08:id-shared-by-two-open-exchanges", "packet identifier " + std::to_string(p.pid) + " used by " + op_str(h.ops[op]) + " while " + op_str(h.ops[it->second]) + " still holds it");
                     }
@@ -408,9 +420,12 @@ void mon_quota_and_ids(const Run& run, const Ix& ix, Verdicts& v, vu::Result& re
             if (!b.wellformed) continue;
             bool frees = b.pkt.type == ref::PUBACK || b.pkt.type == ref::PUBCOMP || (b.pkt.type == ref::PUBREC && b.pkt.rc >= 0x80);
             if (frees) open_on_conn[b.conn].erase(b.pkt.pid);
+            if (frees || b.pkt.type == ref::SUBACK || b.pkt.type == ref::UNSUBACK) wire_open.erase(b.pkt.pid);
             continue;
         }
+        if (t.kind == 6) { wire_open.clear(); continue; }    // the session was lost: the Server holds no exchange of it any more
         if (t.kind == 2) {
+            if (h.ops[t.id].ec) for (auto it = wire_open.begin(); it != wire_open.end();) { if (it->second == t.id) it = wire_open.erase(it); else ++it; }   // abandoned by the client
             { auto r = ids_of_op.equal_range(t.id); for (auto it = r.first; it != r.second; ++it) { auto h2 = id_holder.find(it->second); if (h2 != id_holder.end() && h2->second == t.id) id_holder.erase(h2); } ids_of_op.erase(t.id); }
             continue;
         }
